@@ -136,11 +136,18 @@ def get_hed_version_path(xml_version, library_name=None, local_hed_directory=Non
     if not local_hed_directory:
         local_hed_directory = HED_CACHE_DIRECTORY
 
+    use_installed = local_hed_directory == HED_CACHE_DIRECTORY and not check_prerelease
+
     hed_versions = get_hed_versions(local_hed_directory, library_name, check_prerelease)
-    if not hed_versions or not xml_version:
-        return None
-    if xml_version in hed_versions:
+    if hed_versions and xml_version and xml_version in hed_versions:
         return _create_xml_filename(xml_version, library_name, local_hed_directory, check_prerelease)
+    if xml_version and use_installed:
+        # A bundled version that is not (yet) in the cache, e.g. while or after an interrupted population,
+        # is served from the installed copy.
+        installed_file = _create_xml_filename(xml_version, library_name, INSTALLED_CACHE_LOCATION)
+        if os.path.isfile(installed_file):
+            return installed_file
+    return None
 
 
 def cache_local_versions(cache_folder):
